@@ -38,7 +38,10 @@ DECLS == TLCEval(<<
   \* 6: the table column declared on the next row (unprovable before the repair of eval_packed_lookups_generic:
   \*   mutant "table_local_only")
   [cols |-> 3, deg |-> 2, looking |-> <<C(0)>>, filters |-> <<NoF>>,
-   table |-> [lin |-> <<>>, next |-> <<<<1, 1>>>>, k |-> 0], freq |-> C(2), vals |-> <<{1, 2}, {1, 2}, {0, 1, 2}>>]
+   table |-> [lin |-> <<>>, next |-> <<<<1, 1>>>>, k |-> 0], freq |-> C(2), vals |-> <<{1, 2}, {1, 2}, {0, 1, 2}>>],
+  \* 7: declaration 1 with frequencies 0/1 (used with N = 4)
+  [cols |-> 3, deg |-> 3, looking |-> <<C(0)>>, filters |-> <<NoF>>, table |-> C(1), freq |-> C(2),
+   vals |-> <<{1, 2}, {1, 2}, {0, 1}>>]
 >>)
 
 \* fan-out over the first row so that TLC's workers share the cases
